@@ -5,4 +5,5 @@ f23_0:
   ret
   call f29_0
   call f4_1
+  mov wvsv1(%rip),%rax
   ret
